@@ -89,6 +89,10 @@ func c04(c *Ctx) {
 	r.Floor("C04.R3", 2)
 	r.Floor("C04.R4", 3)
 	r.Floor("C04.R5", 2)
+	// ---- R11 In(…) is the union of its rows, each a conjunction over positions, over the rows Resolve built (C18.R3)
+	if !c.importing {
+		importSibling(c, "C18", "C04.R11", func(rule string) bool { return rule == "C18.R3" })
+	}
 	// ---- R6 the mocker-level When hands the caller's condition arguments to the When
 	r.Floor("C04.R6", 2)
 	checkValuesForwarded(p, r, "C04.R6", map[string]bool{"When": true, "In": true, "Matches": true}, "condition arguments")
@@ -472,8 +476,12 @@ func c04(c *Ctx) {
 	r.Floor("C04.R7", 3)
 	c04Unwrap(p, r)
 	c04ElemComplete(p, r)
+	r.Floor("C04.R12", 2)
+	c04UnwrapFromLast(p, r)
 	r.Floor("C04.R8", 3)
 	c04FlagAgreement(p, r)
+	r.Floor("C04.R10", 4)
+	c04ConditionsReachMatcher(p, r, p.NamedType("", "When"))
 	// ---- R4 variadic unwrapping confined to the tail
 	nUnwrap := 0
 	for _, f := range append(append([]*ssa.Function{}, root...), p.FuncsIn("arg")...) {
@@ -513,7 +521,11 @@ func c04(c *Ctx) {
 				if !underVariadic(p, cl.Block()) {
 					// the converse: an element of the call's argument list is taken apart as a list only for variadic functions
 					for _, ia := range srcs {
-						if isValueSlice(ia.X.Type()) {
+						isArgList := isValueSlice(ia.X.Type())
+						if sl, ok := ia.X.Type().Underlying().(*types.Slice); ok && types.IsInterface(sl.Elem()) && !strings.HasSuffix(sl.Elem().String(), "reflect.Type") && !strings.HasSuffix(sl.Elem().String(), "Expr") {
+							isArgList = true // the list of condition values, before conversion
+						}
+						if isArgList {
 							r.Bad("C04.R4", "argument unwrapped only under the variadic flag in "+shortName(f), p.Pos(posOf(cl)),
 								"an element of the argument list is taken apart with Value.Len/Index on a path where the function is not known to be variadic: for an ordinary function the last argument is not a packed slice, so the call panics ('Len of int Value') or its elements are matched as separate arguments")
 						}
